@@ -13,23 +13,12 @@ import RtcModel.Lemmas.SrtpSess
 namespace RtcModel.Theorems.C05
 open RtcModel.Srtp RtcModel.C04 RtcModel.Generated
 
+/-- generated-constant obligation: the table rule the eviction scenarios are built around, and the
+minimum lengths the session checks before it reads the SSRC of an RTCP packet -/
+theorem const_eviction_rule :
+    ssrcContextHighWatermark = 32 ∧ ssrcInactivityEvictSecs = 60 ∧ srtcpMinLen = 14 ∧ rtcpMinLen = 8 := by decide
+
 /-! ### Acceptance is exactly "the tag is the MAC of everything else" -/
-
-/-- where the tag starts in an SRTP body -/
-abbrev splitAt (c : Ctx) (body : Bytes) : Nat := body.length - c.profile.tagLen
-
-theorem openRtp_hmac (S : Suite) (c : Ctx) (hb body : Bytes) (seq roc : Nat) (hg : c.profile ≠ .gcm) :
-    c.openRtp S hb body seq roc =
-      if body.drop (splitAt c body) ≠ rtpTag S c hb (body.take (splitAt c body)) roc then .error .authFailed
-      else .ok (cmBody S c seq roc (body.take (splitAt c body))) := by
-  unfold Ctx.openRtp; simp [hg]
-
-theorem openRtp_aead (S : Suite) (c : Ctx) (hb body : Bytes) (seq roc : Nat) (hg : c.profile = .gcm) :
-    c.openRtp S hb body seq roc =
-      match S.aeadOpen c.rtp.ck (gcmNonce c.rtp.salt c.ssrc seq roc) hb body with
-      | none => .error .authFailed
-      | some pt => .ok pt := by
-  unfold Ctx.openRtp; rw [if_pos hg]; rfl
 
 /-- **accept_iff_tag** (HMAC profiles, RTP): `unprotect` accepts iff the packet is long enough, its
 last `tag_len` bytes equal the truncated HMAC over `header ‖ ciphertext ‖ estimated ROC`, and the
@@ -162,14 +151,6 @@ def GenuineRtp.wire (S : Suite) (c : Ctx) (g : GenuineRtp) : Bytes := g.hb ++ g.
 the messages `Q` the key holder authenticated. -/
 def MacForged (S : Suite) (ak : Bytes) (n : Nat) (Q : List Bytes) (m t : Bytes) : Prop :=
   m ∉ Q ∧ t = (S.mac ak m).take n
-
-theorem estimate_lt (c : Ctx) (seq : Nat) (h : c.roc < 4294967296) : c.estimate seq < 4294967296 := by
-  unfold Ctx.estimate
-  cases hl : c.last with
-  | none => simpa using h
-  | some l => rw [estimateRoc_some]; split
-              · omega
-              · split <;> omega
 
 /-- **forgery_needs_collision** (HMAC profiles, RTP). Let `G` be everything the key holder ever
 authenticated. If the receive context accepts a packet `raw`, then either `raw` is bit-for-bit one
@@ -342,79 +323,6 @@ theorem reject_preserves_state_rtcp (S : Suite) (s : Sess) (now : Nat) (pkt : By
 
 /-! ### …for every later history -/
 
-/-- everything a session can be asked to do -/
-inductive Op
-  | rtpIn (now : Nat) (raw : Bytes)
-  | rtcpIn (now : Nat) (pkt : Bytes)
-  | rtpOut (now : Nat) (p : Pkt)
-  | rtcpOut (now : Nat) (pkt : Bytes)
-
-/-- everything a caller can observe -/
-inductive Out
-  | rtp (r : Except (ParseErr ⊕ Err) Pkt)
-  | rtcp (r : Except Err Bytes)
-  | wire (r : Except Err Bytes)
-
-def step (S : Suite) (s : Sess) : Op → Out × Sess
-  | .rtpIn now raw => let r := s.receiveRtp S now raw; (.rtp r.1, r.2)
-  | .rtcpIn now pkt => let r := s.unprotectRtcp S now pkt; (.rtcp r.1, r.2)
-  | .rtpOut now p => let r := s.protectRtp S now p; (.wire r.1, r.2)
-  | .rtcpOut now pkt => let r := s.protectRtcp S now pkt; (.wire r.1, r.2)
-
-/-- outputs of a whole history -/
-def run (S : Suite) : Sess → List Op → List Out
-  | _, [] => []
-  | s, o :: os => (step S s o).1 :: run S (step S s o).2 os
-
-def Out.isReject : Out → Bool
-  | .rtp (.error _) => true
-  | .rtcp (.error _) => true
-  | _ => false
-
-theorem step_obsEq (S : Suite) {s1 s2 : Sess} (h : Sess.obsEq s1 s2) (o : Op) :
-    (step S s1 o).1 = (step S s2 o).1 ∧ Sess.obsEq (step S s1 o).2 (step S s2 o).2 := by
-  cases o with
-  | rtpIn now raw =>
-    simp only [step, Sess.receiveRtp]
-    cases hp : parseHdr raw with
-    | error e => exact ⟨rfl, h⟩
-    | ok v =>
-      obtain ⟨hd, p, body⟩ := v
-      simp only
-      have := withRx_obsEq S h now hd.ssrc _ (respects_unprotectRtp S hd p body)
-      unfold Sess.unprotectRtp
-      revert this
-      cases (s1.withRx S now hd.ssrc fun c => c.unprotectRtp S hd p body) with
-      | mk r1 t1 =>
-        cases (s2.withRx S now hd.ssrc fun c => c.unprotectRtp S hd p body) with
-        | mk r2 t2 =>
-          simp only
-          rintro ⟨rfl, ht⟩
-          cases r1 <;> exact ⟨rfl, ht⟩
-  | rtcpIn now pkt =>
-    simp only [step, Sess.unprotectRtcp]
-    split
-    · exact ⟨rfl, h⟩
-    · have := withRx_obsEq S h now (ssrcOfRtcp pkt) _ (respects_unprotectRtcp S pkt)
-      exact ⟨by rw [this.1], this.2⟩
-  | rtpOut now p =>
-    simp only [step, Sess.protectRtp, Sess.withTx, h.tx, h.profile, h.txMk, h.txMs]
-    split
-    · exact ⟨rfl, ⟨rfl, rfl, rfl, h.rxMk, h.rxMs, rfl, h.rx⟩⟩
-    · split
-      · exact ⟨rfl, ⟨rfl, rfl, rfl, h.rxMk, h.rxMs, rfl, h.rx⟩⟩
-      · exact ⟨rfl, ⟨rfl, rfl, rfl, h.rxMk, h.rxMs, rfl, h.rx⟩⟩
-  | rtcpOut now pkt =>
-    simp only [step, Sess.protectRtcp]
-    split
-    · exact ⟨rfl, h⟩
-    · simp only [Sess.withTx, h.tx, h.profile, h.txMk, h.txMs]
-      split
-      · exact ⟨rfl, ⟨rfl, rfl, rfl, h.rxMk, h.rxMs, rfl, h.rx⟩⟩
-      · split
-        · exact ⟨rfl, ⟨rfl, rfl, rfl, h.rxMk, h.rxMs, rfl, h.rx⟩⟩
-        · exact ⟨rfl, ⟨rfl, rfl, rfl, h.rxMk, h.rxMs, rfl, h.rx⟩⟩
-
 /-- sessions that differ only in SRTCP indices of receive contexts are indistinguishable, forever -/
 theorem obs_bisim (S : Suite) (ops : List Op) {s1 s2 : Sess} (h : Sess.obsEq s1 s2) :
     run S s1 ops = run S s2 ops := by
@@ -460,26 +368,19 @@ theorem reject_preserves_behaviour (S : Suite) (s : Sess) (o : Op) (later : List
     run S (step S s o).2 later = run S s later :=
   obs_bisim S later (reject_obsEq S s o hrej)
 
-/-- any number of rejected packets, interleaved anywhere: dropping them from the history changes no
-other result. -/
-theorem rejected_packets_are_invisible (S : Suite) (s : Sess) (ops : List Op) :
-    (run S s ops).filter (fun r => !r.isReject) =
-      (run S s ((ops.zip (run S s ops)).filterMap (fun x => if x.2.isReject then none else some x.1))).filter
-        (fun r => !r.isReject) ∧
-    run S s ((ops.zip (run S s ops)).filterMap (fun x => if x.2.isReject then none else some x.1)) =
-      (run S s ops).filter (fun r => !r.isReject) := by
-  suffices h : ∀ (ops : List Op) (s : Sess),
-      run S s ((ops.zip (run S s ops)).filterMap (fun x => if x.2.isReject then none else some x.1)) =
-        (run S s ops).filter (fun r => !r.isReject) by
-    have h2 := h ops s
-    refine ⟨?_, h2⟩
-    rw [h2, List.filter_filter]; simp
-  intro ops
-  induction ops with
-  | nil => intro s; rfl
+/-- the operations of a history that were not rejected -/
+def survivors (S : Suite) (s : Sess) (ops : List Op) : List Op :=
+  (ops.zip (run S s ops)).filterMap (fun x => if x.2.isReject then none else some x.1)
+
+/-- **any interleaving**: take any history, with any number of rejected (forged, malformed, stale)
+packets anywhere in it; deleting all of them from the history changes no other result — the outputs
+of the pruned history are exactly the non-reject outputs of the original one, in order. -/
+theorem rejected_packets_are_invisible (S : Suite) (ops : List Op) (s : Sess) :
+    run S s (survivors S s ops) = (run S s ops).filter (fun r => !r.isReject) := by
+  induction ops generalizing s with
+  | nil => rfl
   | cons o os ih =>
-    intro s
-    simp only [run, List.zip_cons_cons, List.filterMap_cons, List.filter_cons]
+    simp only [survivors, run, List.zip_cons_cons, List.filterMap_cons, List.filter_cons]
     cases hrej : (step S s o).1.isReject with
     | true =>
       simp only [if_true, Bool.not_true, Bool.false_eq_true, if_false]
@@ -487,7 +388,7 @@ theorem rejected_packets_are_invisible (S : Suite) (s : Sess) (ops : List Op) :
       exact (reject_preserves_behaviour S s o _ hrej).symm
     | false =>
       simp only [Bool.false_eq_true, if_false, Bool.not_false, if_true, run]
-      rw [ih (step S s o).2]
+      rw [← ih (step S s o).2]; rfl
 
 /-- the table cannot be grown, refreshed or aged by rejected traffic: same contexts, same last-use
 times, same size — so forged packets can never contribute to an eviction. -/
